@@ -247,6 +247,33 @@ func genMotif(rt *rapid.T, w *World, motif int) {
 		}
 		direct(dd, req(form("m.dform"), "1.0.0"), "dependencies")
 		w.Vulns = []VulnSpec{affect("V1", b0, "1.0.0"), affect("V2", ba, "1.0.0"), affect("V3", bb, "1.0.0")}
+	case 8: // one package: an early fix, an unfixable advisory, advisories that hit only a middle version
+		a, b := nm[0], nm[1]
+		lines := []string{"1.0.0", "1.1.0", "2.0.0"}
+		if chance(rt, "m.more", 1, 3) {
+			lines = []string{"1.0.0", "1.0.1", "1.1.0", "2.0.0", "3.0.0"}
+		}
+		pa := Pkg{Name: a}
+		for i, v := range lines {
+			vv := ver(v)
+			if i > 0 && chance(rt, fmt.Sprintf("m.dep%d", i), 1, 3) {
+				vv.Deps = []Dep{{Name: b, Req: req(form("m.form"), "1.0.0")}}
+			}
+			pa.Vers = append(pa.Vers, vv)
+		}
+		w.Universe = []Pkg{pa, pkg(b, ver("1.0.0"), ver("1.1.0"))}
+		direct(a, req(draw(rt, "m.aform", "", "", "~", "^"), "1.0.0"), "dependencies")
+		mid := lines[len(lines)/2]
+		if len(lines) == 3 {
+			mid = "1.1.0"
+		}
+		w.Vulns = []VulnSpec{affect("V1", a, lines[0]), affect("V2", a, lines...), affect("V3", a, mid)}
+		if chance(rt, "m.second", 3, 4) {
+			w.Vulns = append(w.Vulns, affect("V4", a, mid))
+		}
+		if chance(rt, "m.bvuln", 1, 3) {
+			w.Vulns = append(w.Vulns, affect(fmt.Sprintf("V%d", len(w.Vulns)+1), b, "1.0.0"))
+		}
 	}
 	for i := range w.Vulns {
 		w.Vulns[i].Severity = draw(rt, fmt.Sprintf("m.sev%d", i), "", "", "high", "low")
